@@ -95,4 +95,51 @@ theorem C14_open_refused_leaves_file (f : OpenFlags) (prior : Option Bytes) (b :
     (h : openFile f prior.isSome = .refused) : openWriteClose f prior b = (prior, false) := by
   unfold openWriteClose; rw [h]
 
+/-- every history on a writer opened in append mode: whatever seeks it contains, the file ends up as the content it
+    had at open followed by the bytes written, in order — existing content is never overwritten -/
+theorem C14_append_history (s : FileW) (h : s.app = true) (ops : List WOp) :
+    (FileW.run s ops).content = s.content ++ FileW.written ops ∧ (FileW.run s ops).app = true := by
+  induction ops generalizing s with
+  | nil => simp [FileW.run, FileW.written, h]
+  | cons op ops ih =>
+    cases op with
+    | write b =>
+      have := ih (FileW.step s (.write b)).2 (by simp [FileW.step, h])
+      simp only [FileW.run, FileW.written]
+      rw [this.1, this.2]; simp [FileW.step, h]
+    | seek p => simpa [FileW.run, FileW.written, FileW.step] using ih { s with pos := p } h
+    | fwd d => simpa [FileW.run, FileW.written, FileW.step] using ih { s with pos := s.pos + d } h
+    | back d =>
+      simp only [FileW.run, FileW.written, FileW.step]
+      split
+      · exact ih s h
+      · exact ih { s with pos := s.pos - d } h
+    | seekBegin => simpa [FileW.run, FileW.written, FileW.step] using ih { s with pos := 0 } h
+    | seekEnd =>
+      simp only [FileW.run, FileW.written, FileW.step]
+      split
+      · exact ih s h
+      · exact ih { s with pos := s.content.length } h
+
+/-- `Append`, any history, close: prior content (nothing, for a new file) is a prefix of what is on disk and the
+    bytes written follow it in order -/
+theorem C14_append_preserves (e n : Bool) (prior : Option Bytes) (ops : List WOp) (s : FileW)
+    (ho : FileW.opened { canOpenExisting := e, canOpenNew := n, truncate := false, append := true } prior = some s) :
+    (FileW.run s ops).content = prior.getD [] ++ FileW.written ops := by
+  have hs : s.app = true ∧ s.content = prior.getD [] := by
+    revert ho
+    cases e <;> cases n <;> cases prior <;> simp [openFile, ofstreamKeeps, FileW.opened] <;> (intro h; subst h; simp)
+  rw [(C14_append_history s hs.1 ops).1, hs.2]
+
+/-- a session exists exactly when the open is not refused -/
+theorem C14_session_iff_not_refused (f : OpenFlags) (prior : Option Bytes) :
+    (FileW.opened f prior).isSome = (openFile f prior.isSome != .refused) := by
+  unfold FileW.opened; cases openFile f prior.isSome <;> rfl
+
+example : (FileW.run { content := [1, 2, 3], pos := 3, app := true } [.write [9], .seek 0, .write [8, 7]]).content
+    = [1, 2, 3, 9, 8, 7] := by decide
+/-- the same history without append mode overwrites: the theorem's hypothesis is what protects the content -/
+example : (FileW.run { content := [1, 2, 3], pos := 3, app := false } [.write [9], .seek 0, .write [8, 7]]).content
+    = [8, 7, 3, 9] := by decide
+
 end Op2.Props.C14
